@@ -29,6 +29,7 @@ import (
 	"os"
 	"runtime"
 	"sort"
+	"strconv"
 	"strings"
 	"sync"
 	"sync/atomic"
@@ -54,6 +55,7 @@ type fakeSecret struct {
 	b      []byte
 	closed bool
 	f      *fakeFactory
+	born   string // creation stack (only with HXCONC_TRACE=1): printed for secrets found live at the end
 }
 
 func (s *fakeSecret) WithBytes(a func([]byte) error) error {
@@ -85,7 +87,34 @@ func (s *fakeSecret) Close() error {
 }
 func (s *fakeSecret) NewReader() io.Reader { return bytes.NewReader(s.b) }
 
+var traceSecrets = os.Getenv("HXCONC_TRACE") == "1"
+
+func (f *fakeFactory) track(s *fakeSecret) *fakeSecret {
+	if traceSecrets {
+		buf := make([]byte, 6000)
+		s.born = string(buf[:runtime.Stack(buf, false)])
+		f.mu.Lock()
+		f.all = append(f.all, s)
+		f.mu.Unlock()
+	}
+	return s
+}
+
+// liveStacks: where the secrets that are still live were created (diagnosis of a reported leak)
+func (f *fakeFactory) liveStacks() string {
+	var b strings.Builder
+	f.mu.Lock()
+	defer f.mu.Unlock()
+	for _, s := range f.all {
+		if !s.IsClosed() {
+			b.WriteString("# LIVE SECRET created at:\n# " + strings.ReplaceAll(s.born, "\n", "\n# ") + "\n")
+		}
+	}
+	return b.String()
+}
+
 type fakeFactory struct {
+	all           []*fakeSecret
 	mu            sync.Mutex
 	rng           *prng.R
 	live          int64
@@ -99,14 +128,14 @@ func (f *fakeFactory) New(b []byte) (securememory.Secret, error) {
 		b[i] = 0
 	}
 	atomic.AddInt64(&f.live, 1)
-	return s, nil
+	return f.track(s), nil
 }
 func (f *fakeFactory) CreateRandom(size int) (securememory.Secret, error) {
 	f.mu.Lock()
 	b := f.rng.Bytes(size)
 	f.mu.Unlock()
 	atomic.AddInt64(&f.live, 1)
-	return &fakeSecret{b: b, f: f}, nil
+	return f.track(&fakeSecret{b: b, f: f}), nil
 }
 
 // ---- counting spies (C20 under concurrency) -------------------------------------------------------
@@ -466,9 +495,27 @@ type gate struct {
 	names   []string
 	reached chan string
 	resume  chan struct{}
+	gid     atomic.Uint64 // goroutine of operation A: only its sync points count (0 = not started yet)
+}
+
+// curGID: the id of the calling goroutine (parsed from the stack header; test harness only).
+func curGID() uint64 {
+	var b [64]byte
+	s := string(b[:runtime.Stack(b[:], false)])
+	s = strings.TrimPrefix(s, "goroutine ")
+	if i := strings.IndexByte(s, ' '); i > 0 {
+		id, _ := strconv.ParseUint(s[:i], 10, 64)
+		return id
+	}
+	return 0
 }
 
 func (g *gate) hook(name string) {
+	// background goroutines of the SDK (event loop, session removers) pass sync points too: they are
+	// neither counted nor parked - the schedule being explored is "A is preempted at ITS k-th point"
+	if id := g.gid.Load(); id == 0 || id != curGID() {
+		return
+	}
 	g.mu.Lock()
 	if !g.armed {
 		g.mu.Unlock()
@@ -590,6 +637,7 @@ func preempt(filter string) {
 				continue
 			}
 			g := &gate{armed: true, reached: make(chan string, 1), resume: make(chan struct{})}
+			g.gid.Store(curGID())
 			appencryption.VerifSetSyncHook(g.hook)
 			runOp(w, pair[0])
 			g.mu.Lock()
@@ -608,7 +656,7 @@ func preempt(filter string) {
 				appencryption.VerifSetSyncHook(g.hook)
 				kd0, rd0 := w.ckms.decs.Load(), w.cms.reads.Load()
 				aDone := make(chan string, 1)
-				go func() { aDone <- runOp(w, pair[0]) }()
+				go func() { g.gid.Store(curGID()); aDone <- runOp(w, pair[0]) }()
 				var at string
 				resA, resB := "", ""
 				select {
@@ -629,10 +677,11 @@ func preempt(filter string) {
 				case <-time.After(60 * time.Millisecond):
 					blocked = true // B waits for a lock A holds: not a schedule of interest
 				}
+				// whoever is parked at the gate goes on: A - or a background goroutine of the SDK (event loop,
+				// session remover) that happened to make the target-th hit; leaving that one parked for good
+				// would show up as a leak that is the harness's doing
+				close(g.resume)
 				if resA == "" {
-					if at != "-" {
-						close(g.resume)
-					}
 					select {
 					case resA = <-aDone:
 					case <-time.After(10 * time.Second):
@@ -671,6 +720,9 @@ func preempt(filter string) {
 					}
 				}
 				fmt.Fprintf(out, "sched %s first=%s second=%s point=%s#%d => A=%s B=%s uac=%d leaked=%d dbl=%d%s\n", sc.name, pair[0].name, pair[1].name, at, k, resA, resB, w.sf.useAfterClose, leak, w.sf.doubleClose, tag)
+				if leak != 0 && traceSecrets {
+					fmt.Fprint(out, w.sf.liveStacks())
+				}
 			}
 		}
 	}
